@@ -312,13 +312,23 @@ func runC21(c *CaseCtx) {
 func init() {
 	register(&Check{
 		ID: "C21", Level: "fault_enumeration", NoLeakMonitor: true,
-		NCases: func(t string) int { return tier(t, 120, 4000) },
-		Run:    runC21,
+		NCases: func(t string) int { return tier(t, 120, 4000) + tier(t, 64, 1500) },
+		Run: func(c *CaseCtx) {
+			if c.Case >= tier(c.Tier, 120, 4000) {
+				runC21DB(c)
+				return
+			}
+			runC21(c)
+		},
 		Rule: "case = one generated record (data entry: empty/long bucket, key, value, all flag/status/ds codes incl. out-of-range ones, timestamps/TTLs/tx ids at 0,1,max; sparse root-index record; bucket meta record), encoded by the library, stored, read back through the library's reader (DataFile.ReadAt in FileIO and MMap, ReadBPTreeRootIdxAt, ReadBucketMeta): all fields must be equal; " +
-			"then EVERY single-bit flip of the stored bytes and EVERY truncation length, plus random byte overwrites: the reader must return an error, 'absent', or the identical record; the upper 12 bits of each 32-bit size field (1 MiB - 2 GiB buffer requests before the read fails) run in a two-at-a-time lane on a subset of records; distinct by record hash",
+			"then EVERY single-bit flip of the stored bytes and EVERY truncation length, plus random byte overwrites: the reader must return an error, 'absent', or the identical record; the upper 12 bits of each 32-bit size field (1 MiB - 2 GiB buffer requests before the read fails) run in a two-at-a-time lane on a subset of records; distinct by record hash; " +
+			"database-level cases: a generated KV history (KeyOnly, sparse, KeyVal; FileIO/MMap; several segments) whose stored records are damaged in place - a bit of a record under the still-open handle that indexed it (then every Get, GetAll, RangeScan and PrefixScan), and a bit flip or truncation of a data segment, sparse root-index file or bucket meta file followed by a reopen: every pair any read returns must have been written under that key by some transaction (errors, not-found and a refused Open are the allowed outcomes)",
 		Assumptions:  []string{"CRC-32 detects every single-bit error of a fixed-length message; flips that change a length field rely on the checksum not colliding (probability 2^-32 per read)"},
 		CaseDeadline: 8 * time.Minute,
 		Floor: func(t string, a map[string]int64) string {
+			if a["db_level_live_corruptions"] < 200 || a["db_level_reopen_corruptions"] < 200 {
+				return fmt.Sprintf("database-level corruptions: %d live, %d reopen", a["db_level_live_corruptions"], a["db_level_reopen_corruptions"])
+			}
 			if a["bit_flips"] < 50000 || a["truncations"] < 5000 || a["records_entry"] == 0 || a["records_root-index"] == 0 || a["records_bucket-meta"] == 0 {
 				return fmt.Sprintf("bit flips %d, truncations %d", a["bit_flips"], a["truncations"])
 			}
